@@ -4,8 +4,8 @@
 
 use serde::{Deserialize, Serialize};
 
-pub const MAX_THREADS: usize = 4;
-pub const MAX_SLOTS: usize = 4;
+pub const MAX_THREADS: usize = 6;
+pub const MAX_SLOTS: usize = 8;
 /// Thread-local iterator slots (the ordinary script style uses the first NORMAL_ITERS).
 pub const MAX_ITERS: usize = 12;
 pub const NORMAL_ITERS: usize = 3;
